@@ -78,6 +78,9 @@ class Node:
     pass
 
 
+WIDE = False          # see ThreadGraph.step_budget
+
+
 class ThreadGraph:
     def __init__(self, tid, nodes, root, calls):
         self.tid, self.nodes, self.root, self.calls = tid, nodes, root, calls
@@ -103,7 +106,11 @@ class ThreadGraph:
 
     def step_budget(self):
         """steps granted to this thread when sizing the global bound: its longest acyclic path, capped at twice the uncontended
-        run + 4 (retry ladders such as ogre_sync::lock's ten attempts would otherwise inflate the bound)"""
+        run + 4 (retry ladders such as ogre_sync::lock's ten attempts would otherwise inflate the bound). The shortest path is
+        only a stand-in for the uncontended run: code with an early exit (a fast path answering 'empty') has a much shorter one,
+        the bound then is too small for all threads to finish and the reachability witness comes back unsat. The runner answers
+        that by deciding the query again with WIDE set (cap: four times the shortest path + 12)."""
+        if WIDE: return min(self.longest_path(), 4 * self.shortest_path() + 12)
         return min(self.longest_path(), 2 * self.shortest_path() + 4)
 
     def longest_path(self):
